@@ -68,7 +68,25 @@ def _alias_check(TLV, TlvParseException, data, label, expected=None):
         first = run(fn, buf)
         if bytes(buf) != bytes(data):
             out.append((f"{name}:modifies-the-callers-buffer", {"data": bytes(data)[:64], "left": bytes(buf)[:64], "label": label}))
+        # what an earlier caller does with the items it was handed (edit a value in place, drop an item) is its own business
+        try:
+            res = fn(bytearray(data), **kw)
+            for item in res:
+                try:
+                    item[1] += b"\xee"
+                except Exception:  # noqa: BLE001
+                    pass
+            if res:
+                try:
+                    res.pop(0)
+                except Exception:  # noqa: BLE001
+                    pass
+        except Exception:  # noqa: BLE001
+            pass
         second = run(fn, buf)
+        third = run(TLV.decode_bytes, bytes(data))
+        if third != base:
+            out.append((f"{name}:result-depends-on-what-an-earlier-caller-did-with-its-result", {"data": bytes(data)[:64], "label": label, "fresh": repr(base)[:120], "later": repr(third)[:120]}))
         if first != base or second != base:
             out.append((f"{name}:result-depends-on-argument-type-or-repetition", {"data": bytes(data)[:64], "label": label, "bytes_result": repr(base)[:120], "first": repr(first)[:120], "second": repr(second)[:120]}))
     return out
@@ -85,6 +103,16 @@ def case_roundtrip(params):
         got = bytes(TLV.encode_list([(t, bytearray(v)) for t, v in items]))
     except Exception as e:  # noqa: BLE001
         return [(f"encode-raises:{type(e).__name__}", {"spec": spec})]
+    # the caller's own values are its own: encoding must leave them alone (and encode the same bytes when asked again)
+    mine = [(t, bytearray(v)) for t, v in items]
+    try:
+        first = bytes(TLV.encode_list(mine))
+        if [(t, bytes(v)) for t, v in mine] != [(t, bytes(v)) for t, v in items]:
+            out.append(("encode:modifies-the-callers-values", {"spec": spec, "lengths_after": [len(v) for _, v in mine]}))
+        elif bytes(TLV.encode_list(mine)) != first:
+            out.append(("encode:second-encoding-of-the-same-list-differs", {"spec": spec}))
+    except Exception:  # noqa: BLE001
+        pass
     if got != want:
         zero = any(ln == 0 for _, ln in spec)
         sig = "encode:zero-length-value-dropped" if zero and got == ref.encode([i for i in items if len(i[1]) or i[0] == 255]) else "encode:bytes-differ"
